@@ -431,6 +431,11 @@ func runSave(c *core.Ctx) {
 						}
 						return []st{s}
 					}})
+				if r.APIMethods["Repo"][fn.Name()] {
+					c.SetTags("api")
+				} else {
+					c.SetTags("collector")
+				}
 				c.Check(bad == "", "mutation-saved:"+name, fn.Pos(), "%s", map[bool]string{true: fmt.Sprintf("%d mutation site(s); every later return passes the save", len(muts)), false: bad}[bad == ""])
 			}
 			// (c) ingest result
@@ -490,6 +495,7 @@ func runSave(c *core.Ctx) {
 						okSave = true
 					}
 				})
+				c.SetTags("ingest")
 				c.Check(okSave, key, call.Pos(), "the ingest's ‘modified’ result leads to a save guarded only by the read-only setting: %v (otherwise a conversion or repair of the index is redone on every start or never persisted)", okSave)
 			})
 		}
